@@ -14,6 +14,7 @@ from typing import Callable, Dict, List, Tuple
 from ..loader import Project, AnalysisError
 from ..report import Result
 from ..engines.abseval import Unsupported, AbsRaise
+from ..engines import abseval
 from ..engines.npmodel import Cube
 from . import oracle
 from .endtoend import E2EWorld, configurations
@@ -52,7 +53,11 @@ def _worker(job):
     for sname in snames:
         pen = oracle.SCHEMES[sname]
         for pivot in pivots:
-          for with_cplex in ((False, True) if prop in CPLEX_PROPS and pivot == "first" else (False,)):
+          for with_cplex, order in (((False, "asc"), (True, "asc"), (False, "desc")) if prop in CPLEX_PROPS and pivot == "first"
+                                    else (((False, "asc"), (False, "desc")) if pivot == "first" else ((False, "asc"),))):
+            # "desc": the same scenario with sets iterated in the opposite order - Python leaves that order unspecified,
+            # so the outcome must not depend on it
+            abseval.SET_ORDER[0] = order
             w = E2EWorld(proj, pivot, cplex=with_cplex)
             ds = w.dataset(raws)
             sch = w.scheme(pen)
@@ -61,12 +66,15 @@ def _worker(job):
             try:
                 for key, problem in fn(w, ds, sch, want_raws, pen, sname, complete, pivot):
                     out.append((key, None if problem is None else f"dataset {dname} {raws}, scheme {sname}"
-                                                                    f"{', pivot ' + pivot if pivot != 'first' else ''}: {problem}"))
+                                                                    f"{', pivot ' + pivot if pivot != 'first' else ''}"
+                                                                    f"{', sets iterated in reverse order' if order == 'desc' else ''}: {problem}"))
             except AbsRaise as exc:
                 out.append((f"{prop}/E:evaluation", f"dataset {dname}, scheme {sname}: raised {exc.exc_name}"))
             except Unsupported as exc:
                 raise AnalysisError(f"end-to-end evaluation ({prop}, dataset {dname}, scheme {sname}): unsupported "
                                     f"construct at line {getattr(exc.node, 'lineno', '?')}: {exc}")
+            finally:
+                abseval.SET_ORDER[0] = "asc"
     return out
 
 
@@ -502,22 +510,22 @@ CHECKS: Dict[str, Callable] = {"C02": _c02, "C13": _c13, "C04": _c04, "C05": _c0
 QUICK_DATASETS = {
     "C02": ["six-mixed", "ties-incomplete", "sparse-components", "strings", "with-empty"],
     "C13": ["six-mixed", "ties-incomplete", "sparse-components", "four-mixed", "big-bucket"],
-    "C04": ["four-mixed", "later-id-first", "ties-incomplete", "sparse-components", "with-empty"],
-    "C05": ["branching-components", "five-branching", "five-cycle-ties", "cycle3", "ties-incomplete", "sparse-components", "later-id-first", "head-merge", "big-bucket"],
-    "C06": ["branching-components", "five-branching", "five-cycle-ties", "cycle3", "sparse-components", "digit-component", "four-mixed", "ties-incomplete", "big-bucket"],
+    "C04": ["topk", "four-mixed", "later-id-first", "ties-incomplete", "sparse-components", "with-empty"],
+    "C05": ["digit-names-mixed-lengths", "branching-components", "five-branching", "five-cycle-ties", "cycle3", "ties-incomplete", "sparse-components", "later-id-first", "head-merge", "big-bucket"],
+    "C06": ["digit-names-mixed-lengths", "branching-components", "five-branching", "five-cycle-ties", "cycle3", "sparse-components", "digit-component", "four-mixed", "ties-incomplete", "big-bucket"],
     "C07": ["branching-components", "five-branching", "five-cycle-ties", "head-merge", "two-opposed", "ties-incomplete", "four-mixed", "cycle3", "sparse-components"],
-    "C08": ["six-mixed", "later-id-first", "four-mixed", "big-bucket", "ties-incomplete"],
-    "C09": ["six-mixed", "later-id-first", "ties-incomplete", "sparse-components", "big-bucket"],
+    "C08": ["topk", "six-mixed", "later-id-first", "four-mixed", "big-bucket", "ties-incomplete"],
+    "C09": ["topk", "six-mixed", "later-id-first", "ties-incomplete", "sparse-components", "big-bucket"],
     "C10": ["six-mixed", "unanimous", "ties-incomplete", "two-opposed", "four-mixed"],
-    "C11": ["unanimous", "strings", "ties-incomplete", "big-bucket", "two-opposed"],
-    "C12": ["equal-means-3-15", "equal-means-5-15", "equal-means-3-6", "six-mixed", "ties-incomplete", "four-mixed", "with-empty", "big-bucket"],
+    "C11": ["topk", "unanimous", "strings", "ties-incomplete", "big-bucket", "two-opposed"],
+    "C12": ["topk", "equal-means-3-15", "equal-means-5-15", "equal-means-3-6", "six-mixed", "ties-incomplete", "four-mixed", "with-empty", "big-bucket"],
 }
 QUICK_SCHEMES = {
-    "C02": ["generic", "unifying"], "C13": ["generic", "unifying", "induced"], "C04": ["unifying", "unifying-p0.5", "generic"],
-    "C05": ["unifying", "b5-gt-t5", "induced"], "C06": ["unifying", "b5-gt-t5", "induced"],
-    "C07": ["unifying", "pseudodistance", "generic"], "C08": ["unifying", "unifying-p0.5", "generic"],
-    "C09": ["unifying", "induced", "generic"], "C10": ["unifying", "generic"], "C11": ["unifying", "generic", "induced"],
-    "C12": ["unifying", "unifying-p0.5", "induced", "generic"],
+    "C02": ["generic", "unifying"], "C13": ["generic", "unifying", "induced"], "C04": ["unifying-p0.25", "unifying", "unifying-p0.5", "generic"],
+    "C05": ["unifying-p0.25", "unifying-x1e-4", "unifying", "b5-gt-t5", "induced"], "C06": ["unifying-x1e-4", "unifying", "b5-gt-t5", "induced"],
+    "C07": ["unifying-x1e-4", "unifying", "pseudodistance", "generic"], "C08": ["unifying", "unifying-p0.5", "generic"],
+    "C09": ["unifying", "induced", "generic"], "C10": ["unifying", "generic"], "C11": ["unifying-p0", "unifying", "generic", "induced"],
+    "C12": ["pseudodistance", "unifying", "unifying-p0.5", "induced", "generic"],
 }
 
 
